@@ -23,7 +23,7 @@ TRANSPARENT = ('ConstantExpr', 'ExprWithCleanups', 'MaterializeTemporaryExpr', '
                'SubstNonTypeTemplateParmExpr', 'FullExpr')
 
 PASS_CASTS = ('LValueToRValue', 'NoOp', 'FunctionToPointerDecay', 'ConstructorConversion', 'UserDefinedConversion',
-              'DerivedToBase', 'UncheckedDerivedToBase', 'BuiltinFnToFnPtr')
+              'BuiltinFnToFnPtr')
 
 
 def qt(n):
@@ -44,6 +44,7 @@ def strip(n):
 
 
 def norm_sig(s):
+    s = re.sub(r'\[\[[^\]]*\]\]', '', s)
     s = re.sub(r'\bconst\b', '', s)
     s = re.sub(r'\bnoexcept(\(true\))?', '', s)
     s = s.replace('std::string_view', 'std::basic_string_view<char>').replace('std::string', 'std::basic_string<char>')
@@ -52,6 +53,11 @@ def norm_sig(s):
 
 def parse_fn_params(sig):
     """'R (A, B &, const C &) const noexcept' -> ['A','B &','const C &']"""
+    sig = re.sub(r'\[\[[^\]]*\]\]', '', sig).strip()
+    m = re.match(r'^auto (\(.*\))\s*(const)?\s*(noexcept)?\s*->\s*(.*)$', sig)
+    if m:
+        sig = '%s %s %s' % (m.group(4), m.group(1), m.group(2) or '')
+        sig = sig.strip()
     i = sig.find('(')
     # find matching top-level parameter list: first '(' whose matching ')' is followed by optional qualifiers
     depth = 0
@@ -79,7 +85,12 @@ def pass_mode(ptype_str):
     if not ct.ref:
         return 'val', ct
     base = ptype_str.strip().rstrip('&').strip()
-    is_const = base.startswith('const ') or base.endswith(' const')
+    if base.endswith('*'):
+        is_const = False          # reference to a non-const pointer (e.g. const char *&)
+    elif re.search(r'\*\s*const$', base):
+        is_const = True
+    else:
+        is_const = base.startswith('const ') or base.endswith(' const')
     if is_const and (ct.klass in (None, 'sv', 'u32sv') and not ct.arr):
         return 'val', ct
     return 'ptr', ct
@@ -162,7 +173,7 @@ class Tr:
             k = s.get('kind')
             if k in ('MaterializeTemporaryExpr', 'CXXBindTemporaryExpr'):
                 return False if not self._addressable_inner(s) else True
-            if k in TRANSPARENT or k == 'ParenExpr' or (k == 'ImplicitCastExpr' and s.get('castKind') in PASS_CASTS) \
+            if k in TRANSPARENT or k == 'ParenExpr' or (k == 'ImplicitCastExpr' and s.get('castKind') in PASS_CASTS + ('DerivedToBase', 'UncheckedDerivedToBase')) \
                     or (k in ('CXXStaticCastExpr', 'CXXConstCastExpr') and s.get('castKind') == 'NoOp'):
                 s = s['inner'][-1]; continue
             break
@@ -385,6 +396,17 @@ class Tr:
         if ck == 'ArrayToPointerDecay':
             s = self.e(sub)
             return s
+        if ck in ('DerivedToBase', 'UncheckedDerivedToBase'):
+            # url_aggregator / url -> url_base: the C structs hold the base as first member `base`
+            s = self.e(sub)
+            tq = qt(n)
+            if 'url_base' not in tq:
+                self.bad('derived-to-base cast to ' + tq, n)
+            if tq.strip().endswith('*'):
+                if s.startswith('&') and balanced(s[1:]):
+                    return '&%s.base' % s[1:]
+                return '(&(%s)->base)' % s
+            return '%s.base' % s
         if ck in ('IntegralToBoolean', 'PointerToBoolean'):
             return '((%s) != 0)' % self.e(sub)
         if ck in ('IntegralCast', 'BitCast', 'NullToPointer', 'PointerToIntegral', 'IntegralToPointer',
